@@ -161,6 +161,10 @@ def check_cfg(case, ev):
     missing = explicit - {x.id for x in oracle.walk(c2)}
     if missing:
         raise Violation(f"explicit ids {sorted(missing)} of the original do not occur in the reloaded configurator")
+    generated = {x.id for x in oracle.walk(c) if not oracle.is_leaf(x) and x.generated_id}
+    bad = set(json_compound_ids(doc)) & (generated - explicit)
+    if bad:
+        raise Violation(f"JSON emits an 'id' for sub-propositions with generated ids: {sorted(bad)}")
     nodes = oracle.spec_nodes(spec)
     deep_default = any(n_.get("default") for r in spec["c"] for n_ in oracle.spec_nodes(r)[1:] if n_["k"] in ("cAny", "cXor"))
     cl = ["kind:" + k for k in sorted({n_["k"] for n_ in nodes} - {"leaf", "ref"})]
